@@ -124,7 +124,7 @@ func collectContainers(p *Prog) map[string]*containerInfo {
 						if _, isZeroInit := x.Val.(*ssa.Const); !isZeroInit || true {
 							for i := 0; i < st.NumFields(); i++ {
 								if isContainerType(st.Field(i).Type()) {
-									c := get(typeKey(x.Val.Type())+"."+st.Field(i).Name(), st.Field(i).Type())
+									c := get(typeKey(x.Val.Type())+"."+cFieldName(st.Field(i)), st.Field(i).Type())
 									c.shrink = append(c.shrink, cSite{fn, x, "owner struct replaced as a whole"})
 								}
 							}
@@ -594,6 +594,13 @@ func eLocalSlices(p *Prog, o *obls, fn *ssa.Function) {
 							growAt = x
 						}
 						walk(x.Call.Args[0], d+1)
+					} else if sc := x.Call.StaticCallee(); sc != nil && p.InUniverse(sc) && body[x.Block()] {
+						// queue = helper(queue): the helper hands back a re-sliced (or fresh) queue
+						for i, a := range x.Call.Args {
+							if reachesPhi(p, a, phi, body) && i < len(sc.Params) && returnsCutOf(p, sc, sc.Params[i]) {
+								shrinks = true
+							}
+						}
 					}
 				case *ssa.Slice:
 					if body[x.Block()] && reachesPhi(p, x.X, phi, body) {
@@ -687,4 +694,67 @@ func loopBounded(p *Prog, h *ssa.BasicBlock, body map[*ssa.BasicBlock]bool) bool
 	}
 	_ = sort.Strings
 	return false
+}
+
+// returnsCutOf: some return of fn hands back a re-slice of the given slice parameter (par[k:], possibly through a
+// loop-carried variable), nil or a fresh slice.
+func returnsCutOf(p *Prog, fn *ssa.Function, par *ssa.Parameter) bool {
+	found := false
+	seen := map[ssa.Value]bool{}
+	var fromPar func(v ssa.Value, d int) bool
+	fromPar = func(v ssa.Value, d int) bool {
+		v = p.origin(v)
+		if v == ssa.Value(par) {
+			return true
+		}
+		if d > 12 {
+			return false
+		}
+		switch x := v.(type) {
+		case *ssa.Phi:
+			for _, e := range x.Edges {
+				if e != ssa.Value(x) && fromPar(e, d+1) {
+					return true
+				}
+			}
+		case *ssa.Slice:
+			return fromPar(x.X, d+1)
+		case *ssa.Extract:
+			return fromPar(x.Tuple, d+1)
+		}
+		return false
+	}
+	var walk func(v ssa.Value, d int)
+	walk = func(v ssa.Value, d int) {
+		v = p.origin(v)
+		if v == nil || seen[v] || d > 20 {
+			return
+		}
+		seen[v] = true
+		switch x := v.(type) {
+		case *ssa.Phi:
+			for _, e := range x.Edges {
+				walk(e, d+1)
+			}
+		case *ssa.Slice:
+			if x.Low != nil && !isConstInt(x.Low, 0) && fromPar(x.X, 0) {
+				found = true
+			}
+			walk(x.X, d+1)
+		case *ssa.Extract:
+			walk(x.Tuple, d+1)
+		case *ssa.Const, *ssa.MakeSlice:
+			found = true
+		}
+	}
+	for _, b := range fn.Blocks {
+		if ret, ok := b.Instrs[len(b.Instrs)-1].(*ssa.Return); ok {
+			for _, r := range ret.Results {
+				if _, isSlice := r.Type().Underlying().(*types.Slice); isSlice {
+					walk(r, 0)
+				}
+			}
+		}
+	}
+	return found
 }
